@@ -351,7 +351,151 @@ theorem ipv6Loop_alphabet : ∀ (fuel : Nat) (s : Bytes) (ip : List UInt8) (ell 
                   · simp only [hlen, if_false, Option.some.injEq, Prod.mk.injEq, Bool.false_eq_true, ↓reduceIte] at h
                     refine ⟨ds ++ [c], by rw [← h.1, hs]; simp, hpre⟩
 
-theorem parseIPv6_alphabet (s : Bytes) (r : List UInt8) (h : parseIPv6 s = some r) : ∀ c ∈ s, ipByte c = true := by
+theorem ipv4Go_length : ∀ (s : Bytes) (first prevDot : Bool) (val digLen : Nat) (acc r : List UInt8),
+    acc.length ≤ 3 → ipv4Go s first prevDot val digLen acc = some r → r.length = 4 := by
+  intro s
+  induction s with
+  | nil =>
+    intro _ _ val _ acc r hacc h
+    unfold ipv4Go at h
+    by_cases h3 : acc.length < 3
+    · simp [h3] at h
+    · simp only [h3, if_false, Option.some.injEq] at h
+      rw [← h]; simp; omega
+  | cons a t ih =>
+    intro first prevDot val digLen acc r hacc h
+    unfold ipv4Go at h
+    by_cases hd : isDigit a = true
+    · simp only [hd, if_true] at h
+      by_cases h1 : (digLen == 1 && val == 0) = true
+      · simp [h1] at h
+      · simp only [h1] at h
+        by_cases h2 : val * 10 + (a.toNat - 48) > 255
+        · simp [h2] at h
+        · simp only [h2, if_false] at h
+          exact ih _ _ _ _ _ _ hacc h
+    · simp only [hd] at h
+      by_cases h46 : (a == 46) = true
+      · simp only [h46, if_true] at h
+        by_cases h1 : (first || t.isEmpty || prevDot) = true
+        · simp [h1] at h
+        · simp only [h1] at h
+          by_cases h2 : (acc.length == 3) = true
+          · simp [h2] at h
+          · simp only [h2] at h
+            have : acc.length ≠ 3 := by simpa using h2
+            exact ih _ _ _ _ _ _ (by simp; omega) h
+      · simp [h46] at h
+
+theorem parseIPv4_length (s : Bytes) (r : List UInt8) (h : parseIPv4 s = some r) : r.length = 4 :=
+  ipv4Go_length s _ _ _ _ [] r (by simp) h
+
+theorem ipv6Loop_length : ∀ (fuel : Nat) (s : Bytes) (ip : List UInt8) (ell : Option Nat) (rest : Bytes) (ip' : List UInt8) (ell' : Option Nat),
+    ip.length % 2 = 0 → ip.length < 16 → (∀ e, ell = some e → e ≤ ip.length) →
+    ipv6Loop fuel s ip ell = some (rest, ip', ell') → ip'.length ≤ 16 ∧ (∀ e, ell' = some e → e ≤ ip'.length) := by
+  intro fuel
+  induction fuel with
+  | zero => intro s ip ell rest ip' ell' _ _ _ h; simp [ipv6Loop] at h
+  | succ n ih =>
+    intro s ip ell rest ip' ell' hev hlt hell h
+    unfold ipv6Loop at h
+    generalize hds : s.takeWhile isHexDigit = ds at h
+    by_cases h1 : ds.length > 4
+    · simp [h1] at h
+    · simp only [h1, if_false] at h
+      by_cases h2 : (ds.length == 0) = true
+      · simp [h2] at h
+      · simp only [h2, Bool.false_eq_true, ↓reduceIte] at h
+        by_cases h3 : ((s.drop ds.length).head? == some 46) = true
+        · simp only [h3, if_true] at h
+          by_cases h4 : (ell.isNone && ip.length != 12) = true
+          · simp [h4] at h
+          · simp only [h4, Bool.false_eq_true, ↓reduceIte] at h
+            by_cases h5 : ip.length + 4 > 16
+            · simp [h5] at h
+            · simp only [h5, if_false] at h
+              cases hp : parseIPv4 s with
+              | none => simp [hp] at h
+              | some v4 =>
+                simp only [hp, Option.some.injEq, Prod.mk.injEq] at h
+                obtain ⟨_, hip, hel⟩ := h
+                have hv := parseIPv4_length s v4 hp
+                subst hip; subst hel
+                refine ⟨by simp; omega, ?_⟩
+                intro e he; have := hell e he; simp; omega
+        · simp only [h3, Bool.false_eq_true, ↓reduceIte] at h
+          generalize hip2 : ip ++ [UInt8.ofNat (hexAcc ds / 256), UInt8.ofNat (hexAcc ds % 256)] = ip2 at h
+          have hl2 : ip2.length = ip.length + 2 := by rw [← hip2]; simp
+          have hev2 : ip2.length % 2 = 0 := by omega
+          have hle2 : ip2.length ≤ 16 := by omega
+          have hell2 : ∀ e, ell = some e → e ≤ ip2.length := by intro e he; have := hell e he; omega
+          generalize s.drop ds.length = tl at h
+          match tl, h with
+          | [], h =>
+            simp only [Option.some.injEq, Prod.mk.injEq] at h
+            obtain ⟨_, hip, hel⟩ := h
+            subst hip; subst hel
+            exact ⟨hle2, hell2⟩
+          | c :: s1, h =>
+            by_cases hc : (c != 58) = true
+            · simp [hc] at h
+            · simp only [hc, Bool.false_eq_true, ↓reduceIte] at h
+              match s1, h with
+              | [], h => simp at h
+              | c2 :: s2, h =>
+                by_cases hcc : (c2 == 58) = true
+                · simp only [hcc, if_true] at h
+                  by_cases he : ell.isSome = true
+                  · simp [he] at h
+                  · simp only [he, Bool.false_eq_true, ↓reduceIte] at h
+                    by_cases hem : s2.isEmpty = true
+                    · simp only [hem, if_true, Option.some.injEq, Prod.mk.injEq] at h
+                      obtain ⟨_, hip, hel⟩ := h
+                      subst hip; subst hel
+                      exact ⟨hle2, by intro e he'; cases he'; exact Nat.le_refl _⟩
+                    · simp only [hem, Bool.false_eq_true, ↓reduceIte] at h
+                      by_cases hlen : ip2.length < 16
+                      · simp only [hlen, if_true] at h
+                        exact ih _ _ _ _ _ _ hev2 hlen (by intro e he'; cases he'; exact Nat.le_refl _) h
+                      · simp only [hlen, if_false, Option.some.injEq, Prod.mk.injEq] at h
+                        obtain ⟨_, hip, hel⟩ := h
+                        subst hip; subst hel
+                        exact ⟨hle2, by intro e he'; cases he'; exact Nat.le_refl _⟩
+                · simp only [hcc, Bool.false_eq_true, ↓reduceIte] at h
+                  by_cases hlen : ip2.length < 16
+                  · simp only [hlen, if_true] at h
+                    exact ih _ _ _ _ _ _ hev2 hlen hell2 h
+                  · simp only [hlen, if_false, Option.some.injEq, Prod.mk.injEq] at h
+                    obtain ⟨_, hip, hel⟩ := h
+                    subst hip; subst hel
+                    exact ⟨hle2, hell2⟩
+
+theorem finishIPv6_some (res : Bytes × List UInt8 × Option Nat) (r : List UInt8) (h : finishIPv6 res = some r) :
+    res.1 = [] ∧ (res.2.1.length ≤ 16 → (∀ e, res.2.2 = some e → e ≤ res.2.1.length) → r.length = 16) := by
+  obtain ⟨rest, ip, ell⟩ := res
+  unfold finishIPv6 at h
+  simp only at h
+  by_cases hr : (!rest.isEmpty) = true
+  · simp [hr] at h
+  · simp only [hr, Bool.false_eq_true, ↓reduceIte] at h
+    refine ⟨by simpa using hr, ?_⟩
+    intro hle hel
+    by_cases hlt : ip.length < 16
+    · simp only [hlt, if_true] at h
+      cases ell with
+      | none => simp at h
+      | some e =>
+        simp only [Option.some.injEq] at h
+        have := hel e rfl
+        rw [← h]; simp; omega
+    · simp only [hlt, if_false] at h
+      by_cases hs : ell.isSome = true
+      · simp [hs] at h
+      · simp only [hs, Bool.false_eq_true, ↓reduceIte, Option.some.injEq] at h
+        rw [← h]; simp only at hle; omega
+
+theorem parseIPv6_some (s : Bytes) (r : List UInt8) (h : parseIPv6 s = some r) :
+    (∀ c ∈ s, ipByte c = true) ∧ r.length = 16 := by
   unfold parseIPv6 at h
   by_cases hlead : hasPrefix s b!"::" = true
   · simp only [hlead, if_true, Bool.true_and] at h
@@ -362,36 +506,40 @@ theorem parseIPv6_alphabet (s : Bytes) (r : List UInt8) (h : parseIPv6 s = some 
       simp
     by_cases hemp : (s.drop 2).isEmpty = true
     · have : s.drop 2 = [] := by simpa using hemp
+      simp only [hemp, if_true, Option.some.injEq] at h
+      refine ⟨?_, by rw [← h]; simp⟩
       rw [hs, this]; intro c hc; simp at hc; rcases hc with rfl | rfl <;> decide
     · simp only [hemp, Bool.false_eq_true, ↓reduceIte] at h
       cases hl : ipv6Loop 9 (s.drop 2) [] (some 0) with
       | none => simp [hl] at h
       | some res =>
+        simp only [hl, Option.bind_some] at h
+        obtain ⟨hrest, hlen⟩ := finishIPv6_some res r h
         obtain ⟨rest, ip, ell⟩ := res
-        simp only [hl] at h
-        by_cases hr : rest.isEmpty = true
-        · have hr' : rest = [] := by simpa using hr
-          obtain ⟨pre, hp, hall⟩ := ipv6Loop_alphabet _ _ _ _ _ _ _ hl
-          rw [hr', List.append_nil] at hp
-          intro c hc
-          rw [hs] at hc
-          rcases List.mem_append.mp hc with hc | hc
-          · simp at hc; rcases hc with rfl | rfl <;> decide
-          · rw [hp] at hc; exact hall c hc
-        · simp [hr] at h
+        simp only at hrest hlen
+        have hinv := ipv6Loop_length _ _ _ _ _ _ _ (by simp) (by simp) (by intro e he; cases he; simp) hl
+        refine ⟨?_, hlen hinv.1 hinv.2⟩
+        obtain ⟨pre, hp, hall⟩ := ipv6Loop_alphabet _ _ _ _ _ _ _ hl
+        rw [hrest, List.append_nil] at hp
+        intro c hc
+        rw [hs] at hc
+        rcases List.mem_append.mp hc with hc | hc
+        · simp at hc; rcases hc with rfl | rfl <;> decide
+        · rw [hp] at hc; exact hall c hc
   · simp only [hlead, Bool.false_eq_true, ↓reduceIte, Bool.false_and] at h
     cases hl : ipv6Loop 9 s [] none with
     | none => simp [hl] at h
     | some res =>
+      simp only [hl, Option.bind_some] at h
+      obtain ⟨hrest, hlen⟩ := finishIPv6_some res r h
       obtain ⟨rest, ip, ell⟩ := res
-      simp only [hl] at h
-      by_cases hr : rest.isEmpty = true
-      · have hr' : rest = [] := by simpa using hr
-        obtain ⟨pre, hp, hall⟩ := ipv6Loop_alphabet _ _ _ _ _ _ _ hl
-        rw [hr', List.append_nil] at hp
-        intro c hc
-        rw [hp] at hc; exact hall c hc
-      · simp [hr] at h
+      simp only at hrest hlen
+      have hinv := ipv6Loop_length _ _ _ _ _ _ _ (by simp) (by simp) (by intro e he; cases he) hl
+      refine ⟨?_, hlen hinv.1 hinv.2⟩
+      obtain ⟨pre, hp, hall⟩ := ipv6Loop_alphabet _ _ _ _ _ _ _ hl
+      rw [hrest, List.append_nil] at hp
+      intro c hc
+      rw [hp] at hc; exact hall c hc
 
 /-- the text of an IP address consists of hex digits, '.' and ':' only; and the parsed address has 16 bytes -/
 theorem parseIP_some (s : Bytes) (ip : List UInt8) (h : parseIP s = some ip) :
@@ -404,16 +552,16 @@ theorem parseIP_some (s : Bytes) (ip : List UInt8) (h : parseIP s = some ip) :
     | none => simp [hf] at h
     | some c =>
       simp only [hf] at h
-      rw [Option.filter_eq_some_iff] at h
-      obtain ⟨h, hlen⟩ := h
-      refine ⟨?_, by simpa using hlen⟩
       by_cases hc : (c == 46) = true
       · simp only [hc, if_true] at h
         cases hp : parseIPv4 s with
         | none => simp [hp] at h
-        | some v4 => exact ipv4Go_alphabet s _ _ _ _ _ _ hp
+        | some v4 =>
+          simp only [hp, Option.map_some, Option.some.injEq] at h
+          refine ⟨ipv4Go_alphabet s _ _ _ _ _ _ hp, ?_⟩
+          rw [← h]; simp [v4in6Prefix, parseIPv4_length s v4 hp]
       · simp only [hc, Bool.false_eq_true, ↓reduceIte] at h
-        exact parseIPv6_alphabet s ip h
+        exact parseIPv6_some s ip h
 
 set_option maxRecDepth 100000 in
 theorem bracket_lower (c : UInt8) : (b!"[]").contains (lowerByte c) = (b!"[]").contains c := by
